@@ -12,14 +12,13 @@ theorem src_get_n_jobs (n : Int) (pop cpu : Nat) (_hpop : 1 ≤ pop) :
     get_n_jobs n (pop : Int) (cpu : Int) = (Split.normJobs n cpu pop).map Int.ofNat := by
   unfold get_n_jobs Split.normJobs
   by_cases h1 : n < 0
-  · simp only [h1, decide_true, if_true, Option.map_some, Option.some.injEq, Int.ofNat_eq_natCast]
+  · simp [h1]
     omega
   · by_cases h2 : n = 0
     · simp [h2]
     · by_cases h3 : n > (pop : Int)
       · simp [h1, h2, h3]
-      · simp only [h1, h2, h3, decide_false, if_false, Option.map_some, Option.some.injEq,
-          Int.ofNat_eq_natCast, Bool.false_eq_true]
+      · simp [h1, h2, h3]
         omega
 
 end TFV.SrcTie
